@@ -66,8 +66,13 @@ var specs = []fieldSpec{
 	{"*int32", pgen.F(sc(pgen.Int32), pgen.Ptr), []tmpl{{"9", func() reflect.Value { x := int32(9); return reflect.ValueOf(&x) }}}, nil},
 	{"nested", pgen.F(inner, pgen.Plain), []tmpl{{`{"F0":11}`, nil}, {`{"F1":"in"}`, nil}, {`{"F0":11,"F1":"in"}`, nil}}, nil},
 	{"*nested", pgen.F(inner, pgen.Ptr), []tmpl{{`{"F0":11}`, nil}, {`{"F1":"in"}`, nil}}, nil},
-	{"[]int32", pgen.F(sc(pgen.Int32), pgen.Slice), []tmpl{{"[4,5]", val([]int32{4, 5})}, {"[6]", val([]int32{6})}, {"[]", val([]int32(nil))}}, nil},
-	{"[]string", pgen.F(sc(pgen.String), pgen.Slice), []tmpl{{`["p","q"]`, val([]string{"p", "q"})}}, nil},
+	{"[]int32", pgen.F(sc(pgen.Int32), pgen.Slice), []tmpl{{"[4,5]", val([]int32{4, 5})}, {"[6]", val([]int32{6})}, {"[]", val([]int32(nil))}, {"[1,0,3]", val([]int32{1, 0, 3})}, {"[0]", val([]int32{0})}}, nil},
+	{"[]string", pgen.F(sc(pgen.String), pgen.Slice), []tmpl{{`["p","q"]`, val([]string{"p", "q"})}, {`["a","","c"]`, val([]string{"a", "", "c"})}}, nil},
+	{"[]bool", pgen.F(sc(pgen.Bool), pgen.Slice), []tmpl{{"[true,false,true]", val([]bool{true, false, true})}, {"[false]", val([]bool{false})}}, nil},
+	{"[]float64", pgen.F(sc(pgen.Float64), pgen.Slice), []tmpl{{"[1.5,0,2]", val([]float64{1.5, 0, 2})}}, nil},
+	{"map[int32]string", pgen.MapF(pgen.Int32, sc(pgen.String)), []tmpl{{`{"5":"five"}`, val(map[int32]string{5: "five"})}, {`{"-1":"m","0":"z"}`, val(map[int32]string{-1: "m", 0: "z"})}}, nil},
+	{"map[uint64]int32", pgen.MapF(pgen.Uint64, sc(pgen.Int32)), []tmpl{{`{"18446744073709551615":1}`, val(map[uint64]int32{math.MaxUint64: 1})}}, nil},
+	{"map[bool]string", pgen.MapF(pgen.Bool, sc(pgen.String)), []tmpl{{`{"true":"t"}`, val(map[bool]string{true: "t"})}}, nil},
 	// elements of a repeated message template mention every sub-field: what a partial element inherits is not specified
 	{"[]nested", pgen.F(inner, pgen.Slice), []tmpl{{`[{"F0":1,"F1":"x"},{"F0":2,"F1":"y"}]`, nil}, {`[{"F0":3,"F1":"z"}]`, nil}}, nil},
 	{"fixed32", pgen.F(enc(pgen.Uint32, "fixed32"), pgen.Plain), []tmpl{{"7", val(uint32(7))}, {"4294967295", val(uint32(math.MaxUint32))}}, &bitor{proto.BitOr[uint32]{}, 0x01000010}},
